@@ -180,7 +180,7 @@ func c20(c *orch.Ctx) (*report.Result, error) {
 		}
 	}
 	engines := []string{"gin", "echo", "mux", "chi", "fiber"}
-	permsList := []string{"", "0644", "0600", "0640", "0755", "644", "0444", "0666"}
+	permsList := []string{"", "0644", "0600", "0640", "0755", "644", "0444", "0666", "000", "0000", "0400", "007"}
 	for i := 0; i < nHonour; i++ {
 		p := newProject()
 		r := rng.New(c.Seed, "C20", "honour", fmt.Sprint(i))
@@ -202,6 +202,20 @@ func c20(c *orch.Ctx) (*report.Result, error) {
 			p.Config.LicenseName = "Apache-2.0"
 		}
 		cs := &c20Case{Kind: "honour", Project: p, JSON5: r.Intn(3) == 0}
+		// files with the same base name in different directories are different files
+		if r.Intn(2) == 0 {
+			seenPkg := map[string]bool{}
+			for ci := range p.Controllers {
+				cc := &p.Controllers[ci]
+				if !seenPkg[cc.Pkg] && !cc.Decoy && len(cc.Files) > 0 {
+					seenPkg[cc.Pkg] = true
+					cc.Files[0] = "controller.go"
+				}
+			}
+			if len(seenPkg) > 1 {
+				p.SetFeature("same-file-name-in-several-directories")
+			}
+		}
 		// decoy controllers outside the globs
 		if p.ExtraFiles == nil {
 			p.ExtraFiles = map[string]string{}
@@ -446,7 +460,7 @@ func c20(c *orch.Ctx) (*report.Result, error) {
 		}
 	}
 	res.Distinct = dist.N()
-	res.Rule = fmt.Sprintf("(a) %d rounds x %d single-field corruptions of a valid generated configuration (DESIGN Appendix I, transcribed from the validate tags), each paired with a project that contains a syntactically broken globbed file: the run must exit non-zero, its message must name the field (Go or JSON name) and must not be about source analysis, and the before/after snapshot must show nothing created; (b) %d valid configurations over 5 engines x 2 versions x 8 permission strings x package names x output paths x glob sets with decoy controllers (unmatched file in a matched package / unmatched package / package imported only for types), one third written as JSON5 with comments, unquoted keys and trailing commas; child runs under umask 0; files are stat'ed, parsed and compared with the configuration. distinct = distinct (corruption, outcome, json5) resp. (engine, version, perms, package?, #decoys, json5)", rounds, len(cfgCatalogue), nHonour)
+	res.Rule = fmt.Sprintf("(a) %d rounds x %d single-field corruptions of a valid generated configuration (DESIGN Appendix I, transcribed from the validate tags), each paired with a project that contains a syntactically broken globbed file: the run must exit non-zero, its message must name the field (Go or JSON name) and must not be about source analysis, and the before/after snapshot must show nothing created; (b) %d valid configurations over 5 engines x 2 versions x 12 permission strings (incl. 000) x package names x output paths x glob sets with decoy controllers (unmatched file in a matched package / unmatched package / package imported only for types), one third written as JSON5 with comments, unquoted keys and trailing commas; child runs under umask 0; files are stat'ed, parsed and compared with the configuration. distinct = distinct (corruption, outcome, json5) resp. (engine, version, perms, package?, #decoys, json5)", rounds, len(cfgCatalogue), nHonour)
 	res.Extra("corruption_outcomes", corruptOutcomes)
 	res.Extra("valid_configurations_honoured", honoured)
 	res.Assumptions = []string{"`controllerGlobs: []` and a missing commonConfig are not judged (omitempty / default globs make them legal in effect)", "an accepted message may name the Go field or the JSON key"}
